@@ -1,5 +1,6 @@
 import Babble.Model.Core
 import Babble.Proofs.HGOrder
+import Babble.Proofs.HGReceived
 /-! # C05 — transaction integrity (PARTIAL)
     About `Babble.Core`, the model of a node's transaction pool.  The strongest form holds: what a node
     accepted is, as a *list*, exactly the concatenation of the payloads of its own events followed by
@@ -58,6 +59,17 @@ theorem committed_from_events (index r : Int) (frame : Babble.HG.Frame) (sorted 
   obtain ⟨l, hl, hm⟩ := List.mem_flatten.mp htx
   obtain ⟨e, he, rfl⟩ := List.mem_map.mp hl
   exact ⟨e, he, hm⟩
+
+/-- **no payload is committed twice on a node**: the events of the delivered blocks are pairwise
+    distinct (operational model, every insertion history from genesis), so — a block's transactions
+    being the concatenation of its events' payloads (`committed_from_events`) and a submitted
+    transaction being placed in exactly one event of the node that accepted it (`pool_conservation`) —
+    an occurrence of a transaction reaches the application at most once. -/
+theorem no_event_payload_committed_twice (g : List Nat) (es : List Babble.HG.Ev) (hes : ∀ e ∈ es, e.round = none)
+    (hnd : (es.map (·.id)).Nodup) :
+    (∀ b ∈ (Babble.HG.runAll (Babble.HG.St.init g) es).blocks, b.events.Nodup) ∧
+    (Babble.HG.runAll (Babble.HG.St.init g) es).blocks.Pairwise (fun a b => ∀ x ∈ a.events, x ∉ b.events) :=
+  Babble.HG.committed_once g es hes hnd
 
 example : (run [.submit 1, .submit 2, .selfEventFail, .submit 2, .selfEventOk [9], .submit 3]).placed = [[1, 2, 2]] := by decide
 example : (run [.submit 1, .submit 2, .selfEventFail, .submit 2, .selfEventOk [9], .submit 3]).pool = [9, 3] := by decide
